@@ -149,7 +149,7 @@ def work(arg):
     return res
 
 
-def real_zckdl(ctx, files, wl, cfg, npairs=60, maxrs=(1, 2, 255), init_names=("absent", "B-zero1", "garbage", "B", "B+50", "header-only", "B-cut-last")):
+def real_zckdl(ctx, files, wl, cfg, npairs=60, maxrs=(1, 2, 255), init_names=("absent", "B-zero1", "garbage", "B", "B+50", "header-only", "B-cut-last"), extra_pairs=()):
     """thorough: the real zckdl tool (built from the tree, libcurl) against a loopback HTTP range server, including the
     back-off when the server refuses the number of ranges"""
     import httpd
@@ -159,6 +159,7 @@ def real_zckdl(ctx, files, wl, cfg, npairs=60, maxrs=(1, 2, 255), init_names=("a
         meta = []
         pairs = [(a, b) for b in wl if len(b) >= 2 for a in ([None] + [w for w in wl if 1 <= len(w) <= 2])]
         pairs = pairs[:npairs] if npairs >= len(pairs) or npairs >= 60 else pairs[::max(1, len(pairs) // npairs)][:npairs]
+        pairs = list(extra_pairs) + pairs       # long words first: several requests in one run of the tool
         k = 0
         for aw, bw in pairs:
             b = files[(bw, cfg.name())]
@@ -290,12 +291,14 @@ def run(ctx):
         for sig, what, case in r["viol"]:
             ctx.violation(sig, what, case)
     if thorough:
-        real_zckdl(ctx, files, [w for w in wl], combos[0][1])
+        files.update(lfiles)
+        real_zckdl(ctx, files, [w for w in wl], combos[0][1], extra_pairs=[(aw, bw) for bw in lwords for aw in [None] + lsrc])
         ctx.bounds["real_zckdl"] = "zckdl (in-process main, libcurl) against a loopback range server: 60 pairs x server range limits {1, 2, 255} x 7 initial targets"
     else:
         # the tool itself (its own copy of the loop, incl. the early exit for a complete target and the final truncate)
-        real_zckdl(ctx, files, [w for w in wl], combos[0][1], npairs=8, maxrs=(1, 255))
-        ctx.bounds["real_zckdl"] = "zckdl (in-process main, libcurl) against a loopback range server: 8 pairs x server range limits {1, 255} x 7 initial targets"
+        files.update(lfiles)
+        real_zckdl(ctx, files, [w for w in wl], combos[0][1], npairs=8, maxrs=(1, 2, 255), extra_pairs=[("a", lwords[0]), (None, lwords[1]), ("ac", lwords[2])])
+        ctx.bounds["real_zckdl"] = "zckdl (in-process main, libcurl) against a loopback range server: 8 pairs of short words and 3 of long words x server range limits {1, 2, 255} x 7 initial targets"
     ctx.sample({"old": "ab", "new": "abc", "initial_target": "absent", "limit": -1, "expect": "one body request for exactly chunk c's extent; target == new file"})
 
 
